@@ -17,7 +17,7 @@ with=$(bash -c "$demo_cmd" 2>&1 | grep -E "Summary|test result" | tail -2)
 git apply -R .seed/patch.diff
 without=$(bash -c "$demo_cmd" 2>&1 | grep -E "Summary|test result" | tail -2)
 git apply .seed/patch.diff
-cp .seed/patch.diff "$out/patch.diff"; for d in $demos; do cp $d "$out/"; done; cp .seed/DEMO_CMD.txt .seed/NOTES.md "$out/" 2>/dev/null
+cp .seed/patch.diff "$out/patch.diff"; for d in $demos; do if [ -d "$d" ]; then cp $d/*.rs "$out/"; else cp $d "$out/"; fi; done; cp .seed/DEMO_CMD.txt .seed/NOTES.md "$out/" 2>/dev/null
 python3 - "$prop" "$id" "$suite" "$with" "$without" <<'PY'
 import json,sys
 prop,id,suite,w,wo=sys.argv[1:6]
